@@ -642,3 +642,88 @@ class ScopeTables:
 
     def stores_through(self, f, ids):
         return self._stores_through(f, set(ids), self.writes_param)
+
+    # ---- which definitions of a local can a use see (structured code, no goto)
+    def _def_sites(self, f, vid):
+        """[(position, node that performs the definition, value node or None)] in source order"""
+        order = self._order(f)
+        out = []
+        for n in self.fns[f].walk():
+            if n.kind == 'VarDecl' and n.id == vid:
+                init = [x for x in n.inner if x.kind not in ('FullComment',) and not x.kind.endswith('Attr')]
+                out.append((order[id(n)], n, init[-1] if init else None))
+            elif n.kind == 'BinaryOperator' and n.opcode == '=':
+                l = n.inner[0].strip()
+                if l.kind == 'DeclRefExpr' and l.ref_id == vid:
+                    out.append((order[id(n)], n, n.inner[1]))
+            elif n.kind == 'CompoundAssignOperator' or (n.kind == 'UnaryOperator' and n.opcode in ('++', '--', '&')):
+                l = n.inner[0].strip()
+                if l.kind == 'DeclRefExpr' and l.ref_id == vid:
+                    out.append((order[id(n)], n, None))
+        return out
+
+    def _order(self, f):
+        o = getattr(self, '_ord', None)
+        if o is None:
+            o = self._ord = {}
+        if f not in o:
+            o[f] = {id(n): i for i, n in enumerate(self.fns[f].walk())}
+        return o[f]
+
+    @staticmethod
+    def _dominates(d, n):
+        """definition node d is executed on every way to n: d is a statement (or a declaration in a DeclStmt) of a block that encloses n and stands
+        before the statement of that block that contains n; or d is in the init clause of a for statement whose other parts contain n"""
+        top = d
+        if d.kind == 'VarDecl' and d.parent is not None and d.parent.kind == 'DeclStmt':
+            top = d.parent
+        blk = top.parent
+        if blk is None:
+            return False
+        anc = [n] + list(n.ancestors())
+        if blk.kind == 'CompoundStmt':
+            for a in anc:
+                if a.parent is blk:
+                    return blk.inner.index(top) < blk.inner.index(a) if a in blk.inner and top in blk.inner else False
+            return False
+        if blk.kind == 'ForStmt' and blk.inner and blk.inner[0] is top:
+            return any(a.parent is blk and a is not top for a in anc)
+        return False
+
+    def reaching_defs(self, f, vid, n):
+        """value nodes (None = not followed) of the definitions of local vid that a use at node n may see"""
+        order = self._order(f)
+        pos = order[id(n)]
+        sites = self._def_sites(f, vid)
+        before = [s for s in sites if s[0] < pos]
+        dom = [s for s in before if self._dominates(s[1], n)]
+        out = []
+        if dom:
+            last = dom[-1]
+            out = [s for s in before if s[0] >= last[0]]
+        else:
+            out = list(before)
+        loops = [a for a in n.ancestors() if a.kind in ('ForStmt', 'WhileStmt', 'DoStmt')]
+        for s in sites:
+            if s[0] > pos and any(any(x is l for x in s[1].ancestors()) for l in loops):
+                out.append(s)
+        return [s[2] for s in out]
+
+    def binding_stores(self, f):
+        """[(decl id, what is written, node, (scope class, field, source))] for the stores f makes through a local that, at the store, may hold the
+        answer of a scope-table lookup"""
+        cand = set(self.bindings(f))
+        out = []
+        for vid, how, n in self._stores_through(f, cand, self.writes_param):
+            ref = None
+            for d in self.reaching_defs(f, vid, n):
+                if d is None:
+                    continue
+                v = self._value_class(f, d)
+                if v is None:
+                    continue
+                if ref is None or v[0] == 'outer' or (ref[0] == 'inner' and v[0] != 'inner'):
+                    ref = v
+            if ref is not None:
+                out.append((vid, how, n, ref))
+        return out
